@@ -77,6 +77,7 @@ type Node struct {
 	ReplMonDelay         *int64
 	NextGno              int64
 	Unkillable           bool // commits waiting for an ACK ignore KILL
+	LagAlways            bool // report Seconds_Behind_Source even when a thread is stopped (stands for a custom replication_lag source)
 
 	conns map[net.Conn]bool
 }
@@ -658,6 +659,9 @@ var GtidGal = func(s string) string { return "[]" }
 
 // HostGal prints a host name as N.
 var HostGal = func(h string) string {
+	if i := strings.LastIndex(h, "h"); i >= 0 {
+		h = h[i:]
+	}
 	x, err := strconv.Atoi(strings.TrimPrefix(h, "h"))
 	if err != nil {
 		return "999%N"
@@ -695,7 +699,7 @@ func (w *World) apply(n *Node, sess *session, q, kind, arg string) (result, stri
 		}
 		var lag *string
 		lagGal := "None"
-		if n.Chan.IO && n.Chan.SQL {
+		if (n.Chan.IO && n.Chan.SQL) || n.LagAlways {
 			l := int64(0)
 			if n.Lag != nil {
 				l = *n.Lag
@@ -731,7 +735,8 @@ func (w *World) apply(n *Node, sess *session, q, kind, arg string) (result, stri
 		return one([]string{"InnodbFlushLogAtTrxCommit", "SyncBinlog"}, sp(fmt.Sprint(n.Flush)), sp(fmt.Sprint(n.SyncBinlog))),
 			"(RZ2 " + Z(int64(n.Flush)) + " " + Z(int64(n.SyncBinlog)) + ")"
 	case "SStartupTime":
-		return one([]string{"LastStartup"}, sp(fmt.Sprint(n.StartedAt))), "(RZ " + Z(n.StartedAt) + ")"
+		// the model's times are ns relative to the synctest epoch (2000-01-01T00:00:00Z)
+		return one([]string{"LastStartup"}, sp(fmt.Sprint(n.StartedAt))), "(RZ " + Z(n.StartedAt*1000000000-946684800*1000000000) + ")"
 	case "SBinlogs":
 		res := result{cols: []string{"Log_name", "File_size", "Encrypted"}}
 		items := []string{}
